@@ -112,3 +112,32 @@ func VH_C14_lock_discipline() {
 	}
 	vndAssert(!s.lockMissing, "every transport operation (write, read, deadline, flush, close) happens with the client's lock held")
 }
+
+// VH_C14_reply_ownership: each caller receives the reply to its own request and keeps it: a response handed to one
+// caller is not changed by a later exchange on the same client (sequential consequence of the sharing contract:
+// whatever a later caller does must not reach into an earlier caller's reply).
+func VH_C14_reply_ownership() {
+	mode := vndParam("mode")
+	kind := vndParam("kind")
+	a := vhMakeExchange(kind, mode, vndParam("q"), false)
+	b := vhMakeExchange(kind, mode, vndParam("q"), false)
+	stream := append(append([]byte{}, a.reply...), b.reply...)
+	s := &vhScript{reply: stream}
+	// first call gets exactly the first reply, the second call the second one (each in one read)
+	s.cuts = []int{len(a.reply), len(stream)}
+	s.pauses = []bool{false, false}
+	s.paused = []bool{false, false}
+	c := vhNewClient(mode, s, false)
+	respA, errA := c.do(a.req)
+	if errA != nil || respA == nil {
+		return // the listed C07 findings (wrong expected lengths) are not this check's subject
+	}
+	snap := append([]byte{}, respA.Bytes()...)
+	vndAssert(vhEqualBytes(snap, a.reply), "the first caller receives the reply to its own request")
+	respB, errB := c.do(b.req)
+	vndCover("two-exchanges")
+	if errB == nil && respB != nil {
+		vndAssert(vhEqualBytes(respB.Bytes(), b.reply), "the second caller receives the reply to its own request")
+	}
+	vndAssert(vhEqualBytes(respA.Bytes(), snap), "a reply already handed to a caller is not changed by a later exchange on the same client")
+}
